@@ -99,6 +99,9 @@ struct Add {
     /// the shared region right before the add, then or-ed with 1 (never 0) - under concurrency it is
     /// whatever the word held at that moment
     from_load: Option<(u16, u8)>,
+    /// that load is an absolute packet load (ldabsw / ldabsdw into r0, which is then the source
+    /// register) instead of ldx through the base register; only where the region is the packet
+    load_abs: bool,
     /// straight-line programs only: a register is computed right before this add and a conditional
     /// jump on it right after the add decides whether the next adds are executed
     guard: Option<Guard>,
@@ -328,7 +331,11 @@ fn body_insns(e: &ExecSpec) -> Vec<[u8; 8]> {
         if a.src_is_base {
             // nothing to load: the addend is whatever the base register holds
         } else if let Some((loff, lw)) = a.from_load {
-            v.push(ins(if lw == 4 { 0x61 } else { 0x79 }, a.src_reg, a.base_reg, (loff as i32 - a.bias) as i16, 0));
+            if a.load_abs {
+                v.push(ins(if lw == 4 { 0x20 } else { 0x38 }, 0, 0, 0, loff as i32)); // ldabsw / ldabsdw -> r0 (= rS)
+            } else {
+                v.push(ins(if lw == 4 { 0x61 } else { 0x79 }, a.src_reg, a.base_reg, (loff as i32 - a.bias) as i16, 0));
+            }
             v.push(ins(0x47, a.src_reg, 0, 0, 1)); // or64 rS, 1
         } else if matches!(a.src_shape, 1 | 2 | 4) {
             // the upper half is garbage until the 32-bit operation / the shifts have run
@@ -503,6 +510,7 @@ impl Scenario {
                 aj["src_shape"] = a.src_shape.into();
                 if let Some((lo, lw)) = a.from_load {
                     aj["from_load"] = json::array![lo, lw];
+                    aj["load_abs"] = a.load_abs.into();
                 }
                 aj["aligned"] = aligned(a).into();
                 if let Some(g) = &a.guard {
@@ -569,6 +577,7 @@ impl Scenario {
                     src_is_base: a["src_is_base"].as_bool().unwrap_or(false),
                     src_shape: a["src_shape"].as_u8().unwrap_or(0),
                     from_load: if a["from_load"].is_array() { Some((a["from_load"][0].as_u16()?, a["from_load"][1].as_u8()?)) } else { None },
+                    load_abs: a["load_abs"].as_bool().unwrap_or(false),
                     guard: if a["guard"].is_object() {
                         let g = &a["guard"];
                         Some(Guard { pre: g["pre"].as_i32()?, alu: g["alu"].as_u8()?, alu_imm: g["alu_imm"].as_i32()?, jmp: g["jmp"].as_u8()?, jmp_imm: g["jmp_imm"].as_i32()?, skip: g["skip"].as_u8()? })
@@ -805,7 +814,12 @@ fn generate(rng: &mut Rng) -> Scenario {
             } else {
                 None
             };
-            adds.push(Add { width, off, addend, base_reg, src_reg, bias, via_lddw, src_is_base, src_shape, from_load, guard });
+            // ... by an absolute packet load where the region is the packet (the value lands in r0)
+            // (the interpreter bounds-checks every ldabs as an 8-byte access, whatever its width)
+            let load_abs = from_load.map(|(lo, _)| lo as usize + 8 <= region_len).unwrap_or(false) && matches!(reach, Reach::RawPacket | Reach::Fixed) && rng.chance(1, 2);
+            let (base_reg, src_reg) = if load_abs { (if base_reg == 0 { 7 } else { base_reg }, 0) } else { (base_reg, src_reg) };
+            let bias = if base_reg == 7 && load_abs { bias } else { bias };
+            adds.push(Add { width, off, addend, base_reg, src_reg, bias, via_lddw, src_is_base, src_shape, from_load, load_abs, guard });
         }
         let tail_load = if rng.chance(1, 2) {
             let s = *rng.pick(&slots);
@@ -875,6 +889,13 @@ fn generate(rng: &mut Rng) -> Scenario {
             let reserved = |r: u8| r == 6 || r == a.base_reg || ((loop_n > 1 || uses_r9) && r == 9) || (stack_check.is_some() && r == 8);
             if !a.src_is_base && reserved(a.src_reg) {
                 a.src_reg = *[2u8, 3, 4, 5].iter().find(|r| !reserved(**r)).unwrap();
+            }
+            if a.load_abs {
+                // ldabs delivers in r0
+                a.src_reg = 0;
+                if a.base_reg == 0 {
+                    a.base_reg = 7;
+                }
             }
         }
         execs.push(ExecSpec { engine, reach, adds, tail_load, loop_n, loop_step, loop_dec_first, pad, allowed_split, in_callee, helper_first, stack_check });
@@ -1274,7 +1295,7 @@ fn check(sc: &Scenario, out: &RunOutput) -> Option<Violation> {
         let (exp, must_err) = expected_writes(spec);
         let evs: Vec<&Event> = out.solo[i].events.iter().filter(|e| is_write(e)).collect();
         match (&out.outs[i].solo, must_err) {
-            (Outcome::Signal(s), _) => return Some(Violation { class: format!("execution-crashed/{}", eng), detail: format!("execution #{} alone: {}", i, out.outs[i].solo.short()) }),
+            (Outcome::Signal(_), _) => return Some(Violation { class: format!("execution-crashed/{}", eng), detail: format!("execution #{} alone: {}", i, out.outs[i].solo.short()) }),
             (Outcome::Panic(p), _) => return Some(Violation { class: format!("execution-crashed/{}", eng), detail: format!("execution #{} alone panicked: {}", i, p) }),
             (Outcome::Ok(_), true) => {
                 return Some(Violation { class: "misaligned-not-refused".into(), detail: format!("execution #{} ({}) contains a misaligned atomic add and returned {}; events: {}", i, eng, out.outs[i].solo.short(), evs.iter().map(|e| ev_desc(e)).collect::<Vec<_>>().join(", ")) });
@@ -1295,8 +1316,32 @@ fn check(sc: &Scenario, out: &RunOutput) -> Option<Violation> {
         if evs.len() != exp.len() {
             return Some(Violation { class: format!("xadd-count/{}", eng), detail: format!("execution #{} alone produced {} write events for {} atomic adds: {}", i, evs.len(), exp.len(), evs.iter().map(|e| ev_desc(e)).collect::<Vec<_>>().join(", ")) });
         }
-        let all: Vec<&Event> = out.solo[i].events.iter().collect();
-        let in_effect = addends_in_effect(&exp, &all);
+        // Alone, the word an addend is loaded from holds exactly what this execution's earlier adds
+        // made of it: the expectation comes from the model, not from the load the engine performed
+        // (an engine that serves the load from a value read before an earlier add is wrong here).
+        let in_effect: Vec<Option<u64>> = {
+            let mut mem = sc.init.clone();
+            let rd = |mem: &[u8], off: usize, w: usize| -> u64 {
+                let mut cur = 0u64;
+                for k in (0..w).rev() {
+                    cur = (cur << 8) | mem[off + k] as u64;
+                }
+                cur
+            };
+            exp.iter()
+                .map(|a| {
+                    let addend = match a.from_load {
+                        None => a.addend,
+                        Some((lo, lw)) => rd(&mem, lo as usize, lw as usize) | 1,
+                    };
+                    let nv = rd(&mem, a.off as usize, a.width as usize).wrapping_add(addend) & mask(a.width);
+                    for k in 0..a.width as usize {
+                        mem[a.off as usize + k] = (nv >> (8 * k)) as u8;
+                    }
+                    Some(addend)
+                })
+                .collect()
+        };
         for (j, (e, a)) in evs.iter().zip(exp.iter()).enumerate() {
             if e.stray >= 0 {
                 return Some(Violation { class: format!("neighbour-clobbered/{}", eng), detail: format!("execution #{} add #{} ({}-bit at offset {}): byte at offset {} outside the word changed ({})", i, j, a.width * 8, a.off, e.stray, ev_desc(e)) });
@@ -1730,6 +1775,7 @@ fn minimise(sc: &Scenario, class: &str) -> (Scenario, usize) {
             cand.execs[t].adds[j].src_is_base = false;
             cand.execs[t].adds[j].src_shape = 0;
             cand.execs[t].adds[j].from_load = None;
+            cand.execs[t].adds[j].load_abs = false;
             evals += 1;
             let (v, _) = eval(&cand);
             if same_class(&v, class) {
